@@ -22,7 +22,7 @@ PROP = dict(
          "the prelude implementation must run), every sixth Num (+ - * / on the user type), every fourth Index and "
          "Iterable/Iterator on a user container incl. `bag[i] op= v`; the Num programs use every operator (+ - * / ^) directly, "
          "in generic functions and as compound assignment on a variable, a struct field and an array element, and each operator "
-         "case is also compared with the model's operator table (`monoop`); 18 fixed probes; each method returns or prints a tag, so the output names the code that ran; "
+         "case is also compared with the model's operator table (`monoop`); 21 fixed probes; each method returns or prints a tag, so the output names the code that ran; "
          "distinct = distinct request lines; non-trivial = the call goes through a generic function or an implementation with "
          "swapped method order",
     nontrivial=lambda req, imp: "#generic" in req or "#nested" in req or "#builtin" in req or "alt+tag" in req,
@@ -37,7 +37,9 @@ PROP = dict(
         "array<void>, unary minus on a user Num type (D86: diagnostic), `_` in annotations, type-qualified channel/array members, "
         "member functions on void/bool/string/tuples, implementations for function types (D99) / channel<T> / instantiated "
         "nominals (rejected), a constraint on a type-definition parameter, a generic instantiated at never, an interface output "
-        "type of a constrained variable (D98), a for loop over `T Iterable` (D100)",
+        "type of a constrained variable (D98: reported where it is left open, sound where the constraint fixes it), method syntax "
+        "on a constrained type variable (D100, must work) and a for loop over `T Iterable` (recorded limitation: a diagnostic, or "
+        "if accepted the correct count)",
         "implementations of one interface have pairwise different type keys (the checker rejects overlapping implementations; "
         "hypothesis of C22_impl_selected_unique)",
         "the method of the selected implementation is looked up by name (D48 repaired); until that fix and D49 (arithmetic "
